@@ -73,7 +73,7 @@ def run(ctx):
             corr.oracle_failures.append((k, '.slpp archive (%s) cut at byte %d of %d: %s' % ({'n': 'no compression', 'l': 'LZ4', 'z': 'ZSTD'}[cid[1]], n, L, what),
                                          {'mode': 'slppread', 'fields': [f[0][:200] + '...', f[1], '1'], 'archive_hex': arch.hex(), 'cut_at': n, 'opts': f[1],
                                           'rerun': 'pvh slppread <file: x <first cut_at bytes of archive_hex> %s 1>' % f[1]}))
-        if head in ('PANIC', 'ABORT', 'HANG'):
+        if head in ('PANIC', 'ABORT', 'HANG', 'SKIPPED-AFTER-HANGS'):
             fail('%s %s' % (head, out[1:2])); continue
         if head == 'OK':
             corr.count('slpp_prefix_accepted')
